@@ -36,11 +36,11 @@ type Call struct {
 	Plugin  string
 	Suffix  string // name = prefix(plugin) + Suffix
 	Args    []Arg
-	Curried *Arg   // second-stage argument for the one-argument curried form: name(a)(b)
-	NRes    int    // number of results of the call expression (after currying)
-	Form    int    // 0 function body, 1 package-level var, 2 closure
-	File    int    // index of the source file of p
-	Test    bool   // lives in the _test.go file
+	Curried *Arg // second-stage argument for the one-argument curried form: name(a)(b)
+	NRes    int  // number of results of the call expression (after currying)
+	Form    int  // 0 function body, 1 package-level var, 2 closure
+	File    int  // index of the source file of p
+	Test    bool // lives in the _test.go file
 	ID      int
 	ResTy   *Ty    // result type when it feeds an outer call
 	Pkg     string // "" = p, "q"
